@@ -504,7 +504,6 @@ class Interstitial(object):
                     omega_v[a, b] = np.tensordot(va, np.tensordot(omega_ij, vb, ((1), (0))), ((0, 1), (0, 1)))
                     domega_v[a, b] = np.tensordot(va, np.tensordot(domega_ij, vb, ((1), (0))), ((0, 1), (0, 3)))
             gamma_v = self.bias_solver(omega_v, bias_v)
-            dg = np.tensordot(domega_v, gamma_v, ((1), (0)))
             # need to project gamma_v *back onto* our sites; not sure if we can just do with a dot since
             # self.VectorBasis is a list of Nx3 matrices
             gamma_i = sum(g * va for g, va in zip(gamma_v, self.VectorBasis))
@@ -512,7 +511,9 @@ class Interstitial(object):
             for c, d in itertools.product(range(self.dim), repeat=2):
                 Dp[:, :, c, d] += np.tensordot(gamma_i, biasP_i[:, :, c, d], ((0), (0))) + \
                                   np.tensordot(biasP_i[:, :, c, d], gamma_i, ((0), (0)))
-            Dp += np.tensordot(np.tensordot(self.VV, gamma_v, ((3), (0))), dg, ((2), (0)))
+            # -gamma.(d omega).gamma, contracted in site space: projecting (d omega).gamma onto the symmetry-invariant vector
+            # basis first loses its non-invariant part for strain components that lower the symmetry
+            Dp += np.tensordot(gamma_i, np.tensordot(domega_ij, gamma_i, ((1), (0))), ((0), (0))).transpose(0, 3, 1, 2)
 
         for a, b, c, d in itertools.product(range(self.dim), repeat=4):
             if a == c:
